@@ -27,11 +27,6 @@ theorem glob_match_recovers : globMatchEvents =
       "assign res0 = false | nil != recover()",
       "return p0.Match(p1)"] := by decide +kernel
 
-/-- `Routes.Less(i,j)` = `pathLt rt[j].Path rt[i].Path`: lower-cased paths first, then the paths -/
-theorem routes_less : lessEvents =
-    ["return strings.ToLower(recv[p1].Path) < strings.ToLower(recv[p0].Path) | strings.ToLower(recv[p0].Path) != strings.ToLower(recv[p1].Path)",
-      "return recv[p1].Path < recv[p0].Path | strings.ToLower(recv[p0].Path) == strings.ToLower(recv[p1].Path)"] := by decide +kernel
-
 /-- default ports: `:80` is stripped exactly when the TLS flag (2nd parameter) is false, `:443` exactly when
 it is true — in either of the equivalent forms `if c && HasSuffix(h,s) { return h[:len(h)-len(s)] }` /
 `strings.TrimSuffix(h, s)`; every other return gives the host back unchanged. The literals are the model's
@@ -59,24 +54,6 @@ theorem host_selection_noglob : matchingHostNoGlobEvents =
       "assign res0 = sortHostsReverseHostPort(res0)",
       "return "] := by decide +kernel
 
-/-- the host order: nothing to do below two hosts; `var0` maps every host to the two results of the unexported
-`reverseHostPort` (its rune-swapping loop is the first two events; `revParts`); first sort: the reversed host
-parts differ ⇒ `lessSpecificHost(other, this)`, else the ports differ ⇒ greater port first, else ties by the key
-(`hostBefore`); second, stable: host names before patterns, where "pattern" is
-`host == "" || ContainsAny(host, metacharacters)` (`isGlobPat`, `sortHosts`) -/
-theorem host_order : sortHostsEvents =
-    ["return p0 | len(p0) < 2",
-      "store var2[var3] = var2[var4] | 1 < len(p0) & var3 < len(var2) / 2",
-      "store var2[var4] = var2[var3] | 1 < len(p0) & var3 < len(var2) / 2",
-      "store var0[val(p0)] = hostPort{reverseHostPort.0, reverseHostPort.1} | 1 < len(p0)",
-      "freturn lessSpecificHost(var0[p0[a1]].host, var0[p0[a0]].host) | 1 < len(p0) & var0[p0[a0]].host != var0[p0[a1]].host",
-      "freturn var0[p0[a1]].port < var0[p0[a0]].port | 1 < len(p0) & var0[p0[a0]].host == var0[p0[a1]].host & var0[p0[a0]].port != var0[p0[a1]].port",
-      "freturn p0[a1] < p0[a0] | 1 < len(p0) & var0[p0[a0]].host == var0[p0[a1]].host & var0[p0[a0]].port == var0[p0[a1]].port",
-      "call sort.Slice(p0, func) | 1 < len(p0)",
-      "freturn !(\"\" == p0[a0] || strings.ContainsAny(p0[a0], \"*?[{\\\\\")) && (\"\" == p0[a1] || strings.ContainsAny(p0[a1], \"*?[{\\\\\")) | 1 < len(p0)",
-      "call sort.SliceStable(p0, func) | 1 < len(p0)",
-      "return p0 | 1 < len(p0)"] := by decide +kernel
-
 /-- the metacharacters of the pattern test are exactly those of the model's `isGlobPat` -/
 theorem glob_metacharacters :
     "*?[{\\".toList.all (fun c => isGlobPat [c]) = true ∧ isGlobPat "az09.-:]}!,".toList = false ∧ isGlobPat [] = true := by decide +kernel
@@ -91,17 +68,6 @@ theorem lookup_shape : lookupEvents =
       "range var0",
       "call recv.scanHost(val(var0), p0.URL.Path, p1, p2, p3)",
       "return res0"] := by decide +kernel
-
-/-- the per-host scan (`Table.lookup`): routes of the lower-cased host in table order; at the first route the
-matcher accepts: no target ⇒ nil, one target ⇒ it, else the picker's choice; nil when no route matches
-(`lookupRoutes`, `lookup`) -/
-theorem scan_host : scanHostEvents =
-    ["range recv[strings.ToLower(p0)]",
-      "return nil | 0 == len(val(recv[strings.ToLower(p0)]).Targets) & p4(p1, val(recv[strings.ToLower(p0)]))",
-      "assign var0 = val(recv[strings.ToLower(p0)]).Targets[0] | 0 != len(val(recv[strings.ToLower(p0)]).Targets) & 1 == len(val(recv[strings.ToLower(p0)]).Targets) & p4(p1, val(recv[strings.ToLower(p0)]))",
-      "assign var0 = p3(val(recv[strings.ToLower(p0)])) | 0 != len(val(recv[strings.ToLower(p0)]).Targets) & 1 != len(val(recv[strings.ToLower(p0)]).Targets) & p4(p1, val(recv[strings.ToLower(p0)]))",
-      "return var0 | 0 != len(val(recv[strings.ToLower(p0)]).Targets) & p4(p1, val(recv[strings.ToLower(p0)]))",
-      "return nil"] := by decide +kernel
 
 /-- `LookupHost` is the scan with the prefix matcher on "/" -/
 theorem lookup_host : lookupHostEvents =
